@@ -318,6 +318,70 @@ fn engine_outtype(checks: u32, tier: Tier, with_zst: bool) -> Vec<Item> {
     out
 }
 
+/// one very long flat_map expansion (70 000 lazily produced children of one input element) and expansions of 2 000
+/// children whose size hint announces only 3/4 of them: the length and the announced length of a *single* expansion
+fn engine_longexp(terms: &[Term], checks: u32, tier: Tier) -> Vec<Item> {
+    let th = tier == Tier::Thorough;
+    let mut out = Vec::new();
+    for ch in ["X", "XF", "XM", "MX", "FX", "OX", "XO"] {
+        let cid = chains::CHAINS.iter().position(|c| *c == ch).unwrap();
+        for t in terms {
+            for mode in [3u8, 4] {
+                for (src, known) in [(Src::SVec, true), (Src::SIter, false)] {
+                    if !src.supports(cid) || !term_ok(src, cid, *t) {
+                        continue;
+                    }
+                    for (w, cs) in [(2usize, CsSet::N(1)), (2, CsSet::N(2)), (3, CsSet::Keep), (1, CsSet::Keep)] {
+                        if !th && mode == 3 && (w == 3 || (cs == CsSet::N(2) && src == Src::SIter)) {
+                            continue;
+                        }
+                        // five inputs: the first and the last one (slots 0 and 4) have the long expansion
+                        let mut c = par(case(src, 5, ch, *t), w, cs);
+                        c.known = known;
+                        c.exp_mode = mode;
+                        c.pmask = 1 << 63;
+                        out.push(item(c, Plan::base_rr().with_horizon(200_000), checks));
+                    }
+                }
+            }
+        }
+    }
+    out
+}
+
+/// both settings of the virtual clock (`case.clk`): whatever the library derives from elapsed time (adaptive chunk
+/// sizes, "cheap closure" fast paths) is decided by the case; every other family runs with the clock standing still
+fn engine_clock(terms: &[Term], checks: u32, tier: Tier, kernels: &[&str]) -> Vec<Item> {
+    let th = tier == Tier::Thorough;
+    let mut out = Vec::new();
+    for ch in kernels {
+        let cid = chains::CHAINS.iter().position(|c| c == ch).unwrap();
+        for t in terms {
+            for clk in [0u8, 1] {
+                for (src, known) in [(Src::SVec, true), (Src::SIter, false), (Src::SIter, true)] {
+                    if !src.supports(cid) || (!th && src == Src::SIter && known) {
+                        continue;
+                    }
+                    for (w, cs) in [(2usize, CsSet::Keep), (2, CsSet::N(1)), (3, CsSet::N(4)), (3, CsSet::Min(2))] {
+                        if !th && clk == 0 && w == 3 {
+                            continue;
+                        }
+                        let mut c = par(case(src, 48, ch, *t), w, cs);
+                        c.known = known;
+                        c.clk = clk;
+                        c.pred_pos = [44, u32::MAX];
+                        for mc in mask_variants(&c, false) {
+                            out.push(item(mc.clone(), Plan::base_rr(), checks));
+                            out.push(item(mc, Plan::base_rr().with_slow0(3), checks));
+                        }
+                    }
+                }
+            }
+        }
+    }
+    out
+}
+
 /// the computation is built and run inside a closure of another parallel computation (on a worker thread of it)
 fn engine_nested(terms: &[Term], checks: u32, tier: Tier) -> Vec<Item> {
     let th = tier == Tier::Thorough;
@@ -513,7 +577,7 @@ fn expansion_sweep(terms: &[Term], checks: u32, tier: Tier, seq_only: bool) -> V
 fn all_units() -> Vec<(Src, usize)> {
     let mut v = Vec::new();
     for (s, _) in hcore::case::ALL_SRC.iter() {
-        if *s == Src::PRangeMax {
+        if matches!(*s, Src::PRangeMax | Src::PRangeBig) {
             continue; // practically endless: only in the explicit C10 items
         }
         for cid in 0..chains::N_CHAINS {
@@ -723,6 +787,8 @@ pub fn items(prop: &str, tier: Tier) -> Vec<Item> {
             out.extend(engine_bigitem(&[Term::CollectVec, Term::Collect, Term::IntoVec], CK_RESULT, tier, &["", "M", "F", "X", "O"]));
             out.extend(engine_nested(&[Term::CollectVec, Term::Collect], CK_RESULT, tier));
             out.extend(engine_prestate(&[Term::CollectVec, Term::Collect, Term::IntoVec], CK_RESULT, tier));
+            out.extend(engine_longexp(&[Term::CollectVec, Term::Collect], CK_RESULT, tier));
+            out.extend(engine_clock(&[Term::CollectVec, Term::Collect], CK_RESULT, tier, &KC4));
             out.extend(engine_outtype(CK_RESULT, tier, true));
             out.extend(engine_fine(&[Term::CollectVec, Term::Collect], CK_RESULT, tier, &KC4));
             out.extend(engine_e(&[Term::CollectVec, Term::Collect, Term::IntoVec], CK_RESULT, tier, &[], &[]));
@@ -782,6 +848,8 @@ pub fn items(prop: &str, tier: Tier) -> Vec<Item> {
             out.extend(engine_huge(&[Term::Find, Term::FindIdx, Term::All], CK_RESULT, tier, &["", "MF", "OF", "XF"]));
             out.extend(engine_bigitem(&[Term::Find, Term::First], CK_RESULT, tier, &["", "M", "F", "X", "O"]));
             out.extend(engine_prestate(&[Term::Find, Term::First, Term::Any, Term::All], CK_RESULT, tier));
+            out.extend(engine_longexp(&[Term::Find, Term::Any], CK_RESULT, tier));
+            out.extend(engine_clock(&[Term::Find, Term::Any], CK_RESULT, tier, &["", "M", "MF", "OF", "XF"]));
             out.extend(engine_fine(&[Term::Find, Term::First, Term::Any, Term::FindIdx], CK_RESULT, tier, &["", "M", "MF", "OF", "XF"]));
             // chunks of thousands of elements, sparse matches given by position, a preemption right after a pull:
             // closure entries are scheduling points only for the first two calls of each thread
@@ -914,6 +982,8 @@ pub fn items(prop: &str, tier: Tier) -> Vec<Item> {
             out.extend(engine_huge(&[Term::Reduce], CK_RESULT, tier, &["", "MF", "OF", "XF"]));
             out.extend(engine_bigitem(&[Term::Reduce], CK_RESULT, tier, &["", "M", "F", "X", "O"]));
             out.extend(engine_prestate(&[Term::Reduce], CK_RESULT, tier));
+            out.extend(engine_longexp(&[Term::Reduce], CK_RESULT, tier));
+            out.extend(engine_clock(&[Term::Reduce], CK_RESULT, tier, &["", "M", "MF", "OF", "XF"]));
             out.extend(engine_fine(&[Term::Reduce], CK_RESULT, tier, &["", "M", "MF", "OF", "XF"]));
             out.extend(engine_e(&[Term::Reduce], CK_RESULT, tier, &[], &[0, 1, 2, 3]));
         }
@@ -927,6 +997,23 @@ pub fn items(prop: &str, tier: Tier) -> Vec<Item> {
             out.extend(engine_huge(&[Term::Count, Term::ForEach], CK_RESULT, tier, &["M", "MF", "OF", "XF"]));
             out.extend(engine_bigitem(&[Term::Count, Term::ForEach], CK_RESULT, tier, &["M", "F", "X", "O"]));
             out.extend(engine_prestate(&[Term::Count, Term::ForEach], CK_RESULT, tier));
+            out.extend(engine_longexp(&[Term::Count, Term::ForEach], CK_RESULT, tier));
+            out.extend(engine_clock(&[Term::Count, Term::ForEach], CK_RESULT, tier, &["", "M", "F", "MF", "OF", "XF"]));
+            // more elements than a 32-bit counter holds: closure-free count over 1..2^31+10 (thorough: 2^32+10)
+            for e in [31usize, 32] {
+                if e == 32 && !th {
+                    continue;
+                }
+                for (w, cs) in [(2usize, CsSet::Keep), (3, CsSet::N(1 << 20))] {
+                    if !th && w == 3 {
+                        continue; // one execution takes about a minute
+                    }
+                    let mut c = par(case(Src::PRangeBig, 0, "", Term::Count), w, cs);
+                    c.spare = e;
+                    c.quiet = true;
+                    out.push(item(c, Plan::base_rr().with_horizon(4_000_000), CK_RESULT));
+                }
+            }
             out.extend(engine_fine(&[Term::Count, Term::ForEach], CK_RESULT, tier, &["", "M", "MF", "OF", "XF"]));
             out.extend(engine_e(&[Term::Count, Term::ForEach], CK_RESULT, tier, &[], &[]));
         }
@@ -941,6 +1028,8 @@ pub fn items(prop: &str, tier: Tier) -> Vec<Item> {
             out.extend(engine_huge(&[Term::CollectVec, Term::Count, Term::CollectX], ck, tier, &["M", "MF", "XF"]));
             out.extend(engine_bigitem(&[Term::CollectVec, Term::Reduce], ck, tier, &["M", "F", "X", "O"]));
             out.extend(engine_prestate(&[Term::CollectVec, Term::Count, Term::Find], ck, tier));
+            out.extend(engine_longexp(&[Term::CollectVec, Term::Count, Term::Reduce], ck, tier));
+            out.extend(engine_clock(&[Term::CollectVec, Term::Count, Term::ForEach, Term::Reduce, Term::CollectX], ck, tier, &["M", "F", "MF", "OF", "XF"]));
             out.extend(engine_fine(&[Term::CollectVec, Term::Count, Term::Reduce, Term::CollectX, Term::Find], ck, tier, &["M", "MF", "OF", "XF"]));
             out.extend(engine_e(&[Term::CollectVec, Term::Count, Term::Reduce, Term::CollectX, Term::Find], ck, tier, &[0b0100, 0], &[0]));
             // exclusivity: scheduling points *inside* the source iterator's next()
@@ -1044,6 +1133,42 @@ pub fn items(prop: &str, tier: Tier) -> Vec<Item> {
                     out.push(item(c, Plan::base_rr().with_horizon(4_000_000), CK_RESULT));
                 }
             }
+            // sources in a particular state x targets with room for the whole input x long inputs
+            for src in [Src::PConVecPre, Src::PConSlicePre, Src::PConRangePre, Src::PConIterPre, Src::PDeque] {
+                for ch in ["", "M", "F"] {
+                    for t in [Term::IntoVec, Term::IntoFixed, Term::IntoSplitD] {
+                        let cid = chains::CHAINS.iter().position(|c| *c == ch).unwrap();
+                        if !term_ok(src, cid, t) {
+                            continue;
+                        }
+                        for n in [300usize, 9000] {
+                            for spare in [0usize, 1, 9100] {
+                                for (w, cs) in [(2usize, CsSet::N(64)), (3, CsSet::Keep)] {
+                                    if !th && n == 300 && w == 3 {
+                                        continue;
+                                    }
+                                    let mut c = par(case(src, 0, ch, t), w, cs);
+                                    c.input = (0..n).map(|i| i as u8).collect();
+                                    c.prefix = 3;
+                                    c.spare = spare;
+                                    c.cp_limit = 4;
+                                    out.push(item(c, Plan::base_rr().with_horizon(400_000), CK_RESULT));
+                                }
+                            }
+                        }
+                    }
+                }
+            }
+            // more than 2^22 survivors merged into a non-empty target
+            for (ch, t) in [("MF", Term::IntoVec), ("F", Term::IntoFixed)] {
+                if !th && t == Term::IntoFixed {
+                    continue;
+                }
+                let mut c = par(case(Src::SVec, 0, ch, t), 2, CsSet::N(4096));
+                c.input = (0..4_400_000usize).map(|i| i as u8).collect();
+                c.prefix = 3;
+                out.push(item(c, Plan::base_rr().with_horizon(4_000_000), CK_RESULT));
+            }
             // offset writes of the map-only kernel, every interleaving
             for t in targets {
                 for cs in [CsSet::N(1), CsSet::N(2)] {
@@ -1083,6 +1208,8 @@ pub fn items(prop: &str, tier: Tier) -> Vec<Item> {
             out.extend(engine_huge(&[Term::CollectX], CK_RESULT, tier, &["M", "MF", "OF", "XF"]));
             out.extend(engine_bigitem(&[Term::CollectX], CK_RESULT, tier, &["M", "F", "X", "O"]));
             out.extend(engine_prestate(&[Term::CollectX], CK_RESULT, tier));
+            out.extend(engine_longexp(&[Term::CollectX], CK_RESULT, tier));
+            out.extend(engine_clock(&[Term::CollectX], CK_RESULT, tier, &["M", "MF", "OF", "XF"]));
             out.extend(engine_fine(&[Term::CollectX], CK_RESULT, tier, &KC));
             out.extend(engine_e(&[Term::CollectX], CK_RESULT, tier, &[], &[]));
         }
@@ -1417,6 +1544,7 @@ pub fn items(prop: &str, tier: Tier) -> Vec<Item> {
         "C11" => {
             let ck = CK_EXACT | CK_RESULT;
             out.extend(engine_bigitem(&[Term::CollectVec, Term::Reduce, Term::Find, Term::Count, Term::CollectX], ck, tier, &["", "M", "F", "X", "O"]));
+            out.extend(engine_clock(&[Term::CollectVec, Term::Count, Term::Reduce], ck, tier, &["M", "MF", "XF"]));
             // many workers: workers are spawned after the first lag period
             let progs: [(&str, Term); 5] = [("M", Term::CollectVec), ("MF", Term::CollectVec), ("M", Term::Reduce), ("MF", Term::Count), ("XF", Term::CollectX)];
             for (ch, t) in progs {
@@ -1673,6 +1801,15 @@ pub fn items(prop: &str, tier: Tier) -> Vec<Item> {
             out.extend(engine_huge(&[Term::CollectVec, Term::Collect, Term::CollectX, Term::IntoSplitD, Term::Reduce, Term::Find], ck, tier, &["M", "MF", "OF", "XF"]));
             out.extend(engine_bigitem(&[Term::CollectVec, Term::Collect, Term::CollectX, Term::IntoVec, Term::Reduce, Term::Find], ck, tier, &["", "M", "F", "X", "O"]));
             out.extend(engine_prestate(&[Term::CollectVec, Term::CollectX, Term::Reduce, Term::Find], ck, tier));
+            out.extend(engine_longexp(&[Term::CollectVec, Term::CollectX, Term::Reduce], ck, tier));
+            out.extend(engine_clock(&[Term::CollectVec, Term::Count, Term::Find], ck, tier, &["M", "MF", "XF"]));
+            {
+                // more than 2^22 survivors merged into a non-empty Vec
+                let mut c = par(case(Src::SVec, 0, "MF", Term::IntoVec), 2, CsSet::N(4096));
+                c.input = (0..4_400_000usize).map(|i| i as u8).collect();
+                c.prefix = 3;
+                out.push(item(c, Plan::base_rr().with_horizon(4_000_000), ck));
+            }
             out.extend(engine_fine(&[Term::CollectVec, Term::CollectX, Term::Find, Term::Reduce], ck, tier, &["M", "MF", "OF", "XF"]));
             // eager (materialising) chains and deeper chains, sequential and parallel
             for cid in 0..chains::N_CHAINS {
